@@ -227,7 +227,17 @@ def run(repo, chk):
                                                                         'EqualityOp', 'ArithmeticOp', 'BinaryArithmeticOp',
                                                                         'UnaryArithmeticOp', 'ControlBlock'):
                 names.add(c)
-        return names
+        # a class other classes derive from and that nothing constructs by name is an abstract intermediate, not an instance
+        subclassed = {b for c in bases for b in ancestors(c)}
+        constructed = set()
+        for rel in ast_rels + ['hidc/parser/grammar.py', 'hidc/ast/program.py']:
+            for n in ast.walk(repo.module(rel)):
+                if isinstance(n, ast.Call):
+                    f = n.func
+                    nm = f.id if isinstance(f, ast.Name) else (f.attr if isinstance(f, ast.Attribute) else None)
+                    if nm:
+                        constructed.add(nm)
+        return {c for c in names if not (c in subclassed and c not in constructed)}
     inst = instantiated()
 
     def arms(fn_name):
@@ -353,7 +363,9 @@ def run(repo, chk):
         chk.ok('C10.X5', 'CompilerError contexts', f'{n_ctx} constructions carry span-like contexts')
     chk.floor('CompilerError constructions', n_ctx, 40)
     # classes stored in env.funcs: only declarations with a real span may expose `.span`
-    bs = repo.find_class('hidc/ast/program.py', 'BuiltinStub')
+    bs = next((repo.classes(r_)['BuiltinStub'] for r_ in sorted(repo.files) if r_.startswith('hidc/ast/') and 'BuiltinStub' in repo.classes(r_)), None)
+    if bs is None:
+        raise AnalysisError('class BuiltinStub not found under hidc/ast')
     fields = [n.target.id for n in bs.body if isinstance(n, ast.AnnAssign)]
     chk.expect('span' not in fields and not any(isinstance(n, (ast.Assign, ast.FunctionDef)) and 'span' in src(n)[:20] for n in bs.body),
                'C10.X5', 'BuiltinStub has no span', 'Environment.add_funcs uses hasattr(prev_def, "span") to decide whether the earlier '
@@ -437,7 +449,7 @@ def _options_interpreted(repo, chk):
         decl = _O()
         decl.ret_type, decl.params, decl.span = DT.EMPTY, [], None
         g.env.funcs = {A.Ident.you('is_you'): {(): decl}}
-        g.state_data, g.const_data, g.numbered_labels, g.func_labels = {}, {}, {}, {}
+        pass        # book-keeping tables come from the dataclass field factories (new_codegen)
         log = []
         g.label_for_func = lambda sig: log.append('label')
         g.make_funcs = lambda: log.append('make_funcs')
